@@ -30,7 +30,17 @@ structure Inv (s : St) : Prop where
   sent : s.headerSent = true → s.wire.committed = true ∧ s.wire.commits = 1
   unsent : s.headerSent = false → s.wire.committed = false ∧ s.wire.commits = 0 ∧ s.wire.body = []
 
-theorem inv_init : Inv ({} : St) := ⟨by simp, by simp⟩
+theorem inv_init (e : Bool) : Inv ({ wire := { enforce := e } } : St) := ⟨by simp, by simp⟩
+
+theorem bodyAllowed_eq (c : Nat) : bodyAllowed c = !noContentStatus c := by
+  unfold bodyAllowed noContentStatus
+  split
+  · rename_i h; simp; omega
+  · split
+    · rename_i h; simp [h]
+    · split
+      · rename_i h; simp [h]
+      · simp; omega
 
 theorem inv_writeHeader (s : St) (c : Nat) (h : Inv s) : Inv (s.writeHeader c) := by
   unfold St.writeHeader; split
@@ -50,7 +60,7 @@ theorem sendHeader_sent (s : St) : s.sendHeader.headerSent = true := by
 theorem inv_rawWrite (s : St) (b : String) (h : Inv s) (hs : s.headerSent = true) :
     Inv (s.rawWrite b) := by
   obtain ⟨h1, h2⟩ := h.sent hs
-  constructor <;> simp [St.rawWrite, Wire.write, h1, h2, hs]
+  constructor <;> (simp only [St.rawWrite, Wire.write, h1, if_true]; split <;> simp [h1, h2, hs])
 
 theorem inv_setHeader (s : St) (k v : String) (h : Inv s) : Inv (s.setHeader k v) :=
   ⟨h.sent, h.unsent⟩
@@ -87,14 +97,14 @@ theorem inv_foldl (ops : List Op) (s : St) (h : Inv s) : Inv (ops.foldl step s) 
 /-! ### phase 1: before the commit -/
 
 /-- state reached by non-committing operations only -/
-structure Pre (s : St) (ops : List Op) : Prop where
+structure Pre (e : Bool) (s : St) (ops : List Op) : Prop where
   unsent : s.headerSent = false
-  wire : s.wire = {}
+  wire : s.wire = { enforce := e }
   hdr : s.hdr = ops.foldl hdrEffect []
   statusSet : s.statusSet = (lastStatus ops).isSome
   status : s.status = (lastStatus ops).getD 200
 
-theorem pre_init : Pre ({} : St) [] := ⟨rfl, rfl, rfl, rfl, rfl⟩
+theorem pre_init (e : Bool) : Pre e ({ wire := { enforce := e } } : St) [] := ⟨rfl, rfl, rfl, rfl, rfl⟩
 
 theorem lastStatus_snoc_none (ops : List Op) (o : Op) (h : statusOf o = none) :
     lastStatus (ops ++ [o]) = lastStatus ops := by
@@ -104,8 +114,8 @@ theorem lastStatus_snoc_some (ops : List Op) (o : Op) (c : Nat) (h : statusOf o 
     lastStatus (ops ++ [o]) = some c := by
   simp [lastStatus, List.filterMap_append, h]
 
-theorem pre_step (s : St) (ops : List Op) (o : Op) (h : Pre s ops) (hc : committing o = false) :
-    Pre (step s o) (ops ++ [o]) := by
+theorem pre_step (e : Bool) (s : St) (ops : List Op) (o : Op) (h : Pre e s ops) (hc : committing o = false) :
+    Pre e (step s o) (ops ++ [o]) := by
   obtain ⟨h1, h2, h3, h4, h5⟩ := h
   cases o with
   | status c =>
@@ -124,114 +134,203 @@ theorem pre_step (s : St) (ops : List Op) (o : Op) (h : Pre s ops) (hc : committ
   | noContent c => simp [committing] at hc
   | writeHeader c => simp [committing] at hc
 
-theorem pre_foldl (pre : List Op) (hall : ∀ o ∈ pre, committing o = false)
-    (s : St) (done : List Op) (h : Pre s done) : Pre (pre.foldl step s) (done ++ pre) := by
+theorem pre_foldl (e : Bool) (pre : List Op) (hall : ∀ o ∈ pre, committing o = false)
+    (s : St) (done : List Op) (h : Pre e s done) : Pre e (pre.foldl step s) (done ++ pre) := by
   induction pre generalizing s done with
   | nil => simpa
   | cons o os ih =>
     have := ih (fun x hx => hall x (List.mem_cons_of_mem _ hx)) (step s o) (done ++ [o])
-      (pre_step s done o h (hall o List.mem_cons_self))
+      (pre_step e s done o h (hall o List.mem_cons_self))
     simpa using this
 
 /-! ### phase 2: the committing operation -/
 
+/-- what of the handler's body bytes `body` the wire keeps: a connection (`e`) keeps nothing when
+    the committed status `st` forbids a body -/
+def kept (e : Bool) (st : Nat) (body : String) : String := if e && !bodyAllowed st then "" else body
+
 /-- state after the head went out -/
-structure Post (s : St) (st : Nat) (h : Hdr) (body : String) : Prop where
+structure Post (e : Bool) (s : St) (st : Nat) (h : Hdr) (body : String) : Prop where
   sent : s.headerSent = true
+  enforce : s.wire.enforce = e
   committed : s.wire.committed = true
   commits : s.wire.commits = 1
   status : s.wire.status = st
   hdr : s.wire.hdrAtCommit = h
-  body : concat s.wire.body = body
+  body : concat s.wire.body = kept e st body
 
-theorem commit_step (s : St) (ops : List Op) (o : Op) (h : Pre s ops) (hc : committing o = true) :
-    Post (step s o) ((lastStatus (ops ++ [o])).getD 200) ((ops ++ [o]).foldl hdrEffect []) (bodyOf o) := by
+theorem kept_empty (e : Bool) (st : Nat) : kept e st "" = "" := by
+  unfold kept; split <;> rfl
+
+theorem post_congr {e : Bool} {s s' : St} {st : Nat} {h : Hdr} {body : String} (hp : Post e s st h body)
+    (h1 : s'.headerSent = s.headerSent) (h2 : s'.wire = s.wire) : Post e s' st h body := by
+  obtain ⟨p1, pe, p2, p3, p4, p5, p6⟩ := hp
+  exact ⟨by rw [h1, p1], by rw [h2, pe], by rw [h2, p2], by rw [h2, p3], by rw [h2, p4], by rw [h2, p5],
+    by rw [h2, p6]⟩
+
+theorem post_cast {e : Bool} {s : St} {st st' : Nat} {h h' : Hdr} {body body' : String}
+    (hp : Post e s st h body) (h1 : st = st') (h2 : h = h') (h3 : body = body') : Post e s st' h' body' := by
+  subst h1 h2 h3; exact hp
+
+/-- a raw write after the commit: the wire keeps the chunk unless it is a connection whose committed
+    status forbids a body (`ErrBodyNotAllowed`, swallowed) -/
+theorem post_rawWrite {e : Bool} {s : St} {st : Nat} {h : Hdr} {body : String} (hp : Post e s st h body)
+    (b : String) : Post e (s.rawWrite b) st h (body ++ b) := by
+  obtain ⟨p1, pe, p2, p3, p4, p5, p6⟩ := hp
+  by_cases hk : (e && !bodyAllowed st) = true
+  · have hw : (s.rawWrite b).wire = s.wire := by
+      have : (s.wire.enforce && !bodyAllowed s.wire.status) = true := by rw [pe, p4]; exact hk
+      simp only [St.rawWrite, Wire.write, p2, if_true, this]
+    refine post_congr (s := s) ⟨p1, pe, p2, p3, p4, p5, ?_⟩ rfl hw
+    rw [p6]; simp only [kept, hk, if_true]
+  · have hw : (s.rawWrite b).wire = { s.wire with body := s.wire.body ++ [b] } := by
+      have : ¬ (s.wire.enforce && !bodyAllowed s.wire.status) = true := by rw [pe, p4]; exact hk
+      simp [St.rawWrite, Wire.write, p2, this]
+    refine ⟨p1, by rw [hw]; exact pe, by rw [hw]; exact p2, by rw [hw]; exact p3, by rw [hw]; exact p4,
+      by rw [hw]; exact p5, ?_⟩
+    have hk' : (e && !bodyAllowed st) = false := by simpa using hk
+    have p6' : concat s.wire.body = body := by rw [p6, kept, hk']; rfl
+    have hk2 : kept e st (body ++ b) = body ++ b := by rw [kept, hk']; rfl
+    rw [hw, hk2]
+    show concat (s.wire.body ++ [b]) = body ++ b
+    rw [concat_snoc, p6']
+
+theorem sendHeader_of_sent (s : St) (h : s.headerSent = true) : s.sendHeader = s := by
+  simp [St.sendHeader, h]
+
+theorem setStatus_of_sent (s : St) (c : Nat) (h : s.headerSent = true) : s.setStatus c = s := by
+  simp [St.setStatus, h]
+
+theorem writeHeader_of_sent (s : St) (c : Nat) (h : s.headerSent = true) : s.writeHeader c = s := by
+  simp [St.writeHeader, h]
+
+/-- nothing on the wire yet -/
+structure Fresh (e : Bool) (s : St) : Prop where
+  unsent : s.headerSent = false
+  wire : s.wire = { enforce := e }
+
+theorem fresh_setHeader {e : Bool} {s : St} (hf : Fresh e s) (k v : String) : Fresh e (s.setHeader k v) :=
+  ⟨hf.unsent, hf.wire⟩
+
+theorem fresh_setStatus {e : Bool} {s : St} (hf : Fresh e s) (c : Nat) :
+    Fresh e (s.setStatus c) ∧ (s.setStatus c).status = c ∧ (s.setStatus c).hdr = s.hdr := by
+  have := hf.unsent
+  refine ⟨⟨?_, ?_⟩, ?_, ?_⟩ <;> simp [St.setStatus, this, hf.wire]
+
+/-- the head goes out: `WriteHeader(c)` on a fresh writer -/
+theorem fresh_writeHeader {e : Bool} {s : St} (hf : Fresh e s) (c : Nat) :
+    Post e (s.writeHeader c) c s.hdr "" := by
+  have h1 := hf.unsent
+  have h2 := hf.wire
+  constructor <;> simp [St.writeHeader, Wire.writeHeader, h1, h2, kept_empty, concat]
+
+theorem fresh_sendHeader {e : Bool} {s : St} (hf : Fresh e s) :
+    Post e s.sendHeader s.status s.hdr "" := by
+  have : s.sendHeader = s.writeHeader s.status := by simp [St.sendHeader, hf.unsent]
+  rw [this]; exact fresh_writeHeader hf _
+
+theorem fresh_write {e : Bool} {s : St} (hf : Fresh e s) (b : String) :
+    Post e (s.write b) s.status s.hdr b := by
+  have := post_rawWrite (fresh_sendHeader hf) b
+  exact post_cast this rfl rfl (by simp)
+
+theorem commit_step (e : Bool) (s : St) (ops : List Op) (o : Op) (h : Pre e s ops) (hc : committing o = true) :
+    Post e (step s o) ((lastStatus (ops ++ [o])).getD 200) ((ops ++ [o]).foldl hdrEffect []) (bodyOf o) := by
   obtain ⟨h1, h2, h3, h4, h5⟩ := h
+  have hf : Fresh e s := ⟨h1, h2⟩
   cases o with
   | status c => simp [committing] at hc
   | header k v => simp [committing] at hc
   | cookie v => simp [committing] at hc
   | write b =>
     have hl := lastStatus_snoc_none ops (.write b) rfl
-    constructor <;>
-      simp [step, St.write, St.sendHeader, St.writeHeader, St.rawWrite, Wire.writeHeader, Wire.write,
-        h1, h2, h3, h5, hl, List.foldl_append, hdrEffect, bodyOf, concat]
+    exact post_cast (fresh_write hf b) (by rw [hl, h5]) (by simp [List.foldl_append, hdrEffect, h3]) rfl
   | json b =>
     have hl := lastStatus_snoc_none ops (.json b) rfl
-    constructor <;>
-      simp [step, St.write, St.sendHeader, St.writeHeader, St.rawWrite, St.setHeader, Wire.writeHeader,
-        Wire.write, h1, h2, h3, h5, hl, List.foldl_append, hdrEffect, bodyOf, concat]
+    exact post_cast (fresh_write (fresh_setHeader hf _ _) b) (by rw [hl, ← h5]; rfl)
+      (by simp [List.foldl_append, hdrEffect, h3, St.setHeader]) rfl
   | html b c =>
     cases c with
     | none =>
       have hl := lastStatus_snoc_none ops (.html b none) rfl
-      constructor <;>
-        simp [step, St.write, St.sendHeader, St.writeHeader, St.rawWrite, St.setHeader, Wire.writeHeader,
-          Wire.write, h1, h2, h3, h5, hl, List.foldl_append, hdrEffect, bodyOf, concat]
+      exact post_cast (fresh_write (fresh_setHeader hf _ _) b) (by rw [hl, ← h5]; rfl)
+        (by simp [List.foldl_append, hdrEffect, h3, St.setHeader]) rfl
     | some c =>
       have hl := lastStatus_snoc_some ops (.html b (some c)) c rfl
-      constructor <;>
-        simp [step, St.write, St.sendHeader, St.writeHeader, St.rawWrite, St.setHeader, St.setStatus,
-          Wire.writeHeader, Wire.write, h1, h2, h3, hl, List.foldl_append, hdrEffect, bodyOf, concat]
+      obtain ⟨hf2, hs2, hh2⟩ := fresh_setStatus hf c
+      exact post_cast (fresh_write (fresh_setHeader hf2 _ _) b)
+        (by rw [hl]; simp [St.setHeader, hs2])
+        (by simp [List.foldl_append, hdrEffect, h3, St.setHeader, hh2]) rfl
   | redirect u c =>
     have hl := lastStatus_snoc_some ops (.redirect u c) c rfl
-    constructor <;>
-      simp [step, St.sendHeader, St.writeHeader, St.rawWrite, St.setHeader, St.setStatus,
-        Wire.writeHeader, Wire.write, h1, h2, h3, hl, List.foldl_append, hdrEffect, bodyOf, concat]
+    obtain ⟨hf2, hs2, hh2⟩ := fresh_setStatus (fresh_setHeader hf "Location" u) c
+    exact post_cast (post_rawWrite (fresh_sendHeader hf2) "")
+      (by rw [hl]; simp [hs2])
+      (by rw [hh2]; simp [List.foldl_append, hdrEffect, h3, St.setHeader]) (by simp [bodyOf])
   | noContent c =>
     have hl := lastStatus_snoc_some ops (.noContent c) c rfl
-    constructor <;>
-      simp [step, St.sendHeader, St.writeHeader, St.setStatus,
-        Wire.writeHeader, h1, h2, h3, hl, List.foldl_append, hdrEffect, bodyOf, concat]
+    obtain ⟨hf2, hs2, hh2⟩ := fresh_setStatus hf c
+    exact post_cast (fresh_sendHeader hf2) (by rw [hl]; simp [hs2])
+      (by simp [List.foldl_append, hdrEffect, h3, hh2]) (by simp [bodyOf])
   | writeHeader c =>
     have hl := lastStatus_snoc_some ops (.writeHeader c) c rfl
-    constructor <;>
-      simp [step, St.writeHeader, Wire.writeHeader, h1, h2, h3, hl, List.foldl_append, hdrEffect,
-        bodyOf, concat]
+    exact post_cast (fresh_writeHeader hf c) (by rw [hl]; simp)
+      (by simp [List.foldl_append, hdrEffect, h3]) (by simp [bodyOf])
 
 /-! ### phase 3: after the commit nothing but the body changes -/
 
-theorem post_step (s : St) (st : Nat) (h : Hdr) (body : String) (o : Op) (hp : Post s st h body) :
-    Post (step s o) st h (body ++ bodyOf o) := by
-  obtain ⟨p1, p2, p3, p4, p5, p6⟩ := hp
+theorem post_step (e : Bool) (s : St) (st : Nat) (h : Hdr) (body : String) (o : Op) (hp : Post e s st h body) :
+    Post e (step s o) st h (body ++ bodyOf o) := by
+  have p1 := hp.sent
   cases o with
-  | status c => constructor <;> simp [step, St.setStatus, p1, p2, p3, p4, p5, p6, bodyOf]
-  | header k v => constructor <;> simp [step, St.setHeader, p1, p2, p3, p4, p5, p6, bodyOf]
-  | cookie v => constructor <;> simp [step, p1, p2, p3, p4, p5, p6, bodyOf]
+  | status c =>
+    show Post e (s.setStatus c) st h (body ++ "")
+    rw [setStatus_of_sent s c p1]; exact post_cast hp rfl rfl (by simp)
+  | header k v => exact post_cast (post_congr (s' := s.setHeader k v) hp rfl rfl) rfl rfl (by simp [bodyOf])
+  | cookie v =>
+    exact post_cast (post_congr (s' := { s with hdr := s.hdr.add "Set-Cookie" v }) hp rfl rfl) rfl rfl
+      (by simp [bodyOf])
   | write b =>
-    constructor <;>
-      simp [step, St.write, St.sendHeader, St.rawWrite, Wire.write, p1, p2, p3, p4, p5, p6, bodyOf]
+    show Post e ((s.sendHeader).rawWrite b) st h (body ++ b)
+    rw [sendHeader_of_sent s p1]; exact post_rawWrite hp b
   | json b =>
-    constructor <;>
-      simp [step, St.write, St.sendHeader, St.rawWrite, St.setHeader, Wire.write, p1, p2, p3, p4, p5,
-        p6, bodyOf]
+    have hp1 := post_congr (s' := s.setHeader "Content-Type" "application/json; charset=utf-8") hp rfl rfl
+    show Post e ((St.sendHeader _).rawWrite b) st h (body ++ b)
+    rw [sendHeader_of_sent _ hp1.sent]; exact post_rawWrite hp1 b
   | html b c =>
-    cases c <;> constructor <;>
-      simp [step, St.write, St.sendHeader, St.rawWrite, St.setHeader, St.setStatus, Wire.write, p1, p2,
-        p3, p4, p5, p6, bodyOf]
+    have hp1 := post_congr (s' := s.setHeader "Content-Type" "text/html; charset=utf-8") hp rfl rfl
+    cases c with
+    | none =>
+      show Post e ((St.sendHeader (s.setHeader _ _)).rawWrite b) st h (body ++ b)
+      rw [sendHeader_of_sent _ hp1.sent]; exact post_rawWrite hp1 b
+    | some c =>
+      show Post e ((St.sendHeader (St.setHeader (s.setStatus c) _ _)).rawWrite b) st h (body ++ b)
+      rw [setStatus_of_sent s c p1, sendHeader_of_sent _ hp1.sent]; exact post_rawWrite hp1 b
   | redirect u c =>
-    constructor <;>
-      simp [step, St.sendHeader, St.rawWrite, St.setHeader, St.setStatus, Wire.write, p1, p2, p3, p4,
-        p5, p6, bodyOf]
+    have hp1 := post_congr (s' := s.setHeader "Location" u) hp rfl rfl
+    show Post e ((St.sendHeader (St.setStatus (s.setHeader "Location" u) c)).rawWrite "") st h (body ++ "")
+    rw [setStatus_of_sent _ c hp1.sent, sendHeader_of_sent _ hp1.sent]; exact post_rawWrite hp1 ""
   | noContent c =>
-    constructor <;> simp [step, St.sendHeader, St.setStatus, p1, p2, p3, p4, p5, p6, bodyOf]
+    show Post e (St.sendHeader (s.setStatus c)) st h (body ++ "")
+    rw [setStatus_of_sent s c p1, sendHeader_of_sent s p1]; exact post_cast hp rfl rfl (by simp)
   | writeHeader c =>
-    constructor <;> simp [step, St.writeHeader, p1, p2, p3, p4, p5, p6, bodyOf]
+    show Post e (s.writeHeader c) st h (body ++ "")
+    rw [writeHeader_of_sent s c p1]; exact post_cast hp rfl rfl (by simp)
 
-theorem post_foldl (ops : List Op) (s : St) (st : Nat) (h : Hdr) (body : String)
-    (hp : Post s st h body) : Post (ops.foldl step s) st h (body ++ concat (ops.map bodyOf)) := by
+theorem post_foldl (e : Bool) (ops : List Op) (s : St) (st : Nat) (h : Hdr) (body : String)
+    (hp : Post e s st h body) : Post e (ops.foldl step s) st h (body ++ concat (ops.map bodyOf)) := by
   induction ops generalizing s body with
   | nil => simpa using hp
   | cons o os ih =>
-    have := ih (step s o) (body ++ bodyOf o) (post_step s st h body o hp)
+    have := ih (step s o) (body ++ bodyOf o) (post_step e s st h body o hp)
     simpa [concat_cons, String.append_assoc] using this
 
-theorem post_finish (s : St) (st : Nat) (h : Hdr) (body : String) (hp : Post s st h body) :
+theorem post_finish (e : Bool) (s : St) (st : Nat) (h : Hdr) (body : String) (hp : Post e s st h body) :
     s.finish = s := by
   simp [St.finish, hp.sent]
 
-theorem post_client (s : St) (st : Nat) (h : Hdr) (body : String) (hp : Post s st h body) :
-    s.client = { status := st, hdr := h, body := body, commits := 1 } := by
+theorem post_client (e : Bool) (s : St) (st : Nat) (h : Hdr) (body : String) (hp : Post e s st h body) :
+    s.client = { status := st, hdr := h, body := kept e st body, commits := 1 } := by
   simp [St.client, hp.committed, hp.status, hp.hdr, hp.body, hp.commits]
 
 theorem takeWhile_all (ops : List Op) :
